@@ -208,6 +208,10 @@ def build_runner(layers):
     en = ("(* GENERATED: name -> extracted entry point; no logic *)\nopen Model\n"
           "let table : (string * (sx -> sx)) list = [\n%s]\n"
           % "".join('  ("%s", %s);\n' % (n, n) for n in names))
+    # the entry modules are not dependencies of Properties/<ID>.vo: build them explicitly
+    ok, mk = coq_build(targets=[m.replace(".", "/") + ".vo" for m in mods])
+    if not ok:
+        return False, mk
     with Lock("runner_" + key):
         os.makedirs(bdir, exist_ok=True)
         changed = False
